@@ -26,6 +26,12 @@ struct C02Script {
     slow_permille: u64,
     noreply_permille: u64,
     big_permille: u64,
+    /// Once per run (1 run in 8): while requests are outstanding the node pushes a frame
+    /// with an UNKNOWN opcode whose body is itself a well-formed RESULT frame addressed
+    /// to the stream of an outstanding request, carrying another request's content. A
+    /// client that keeps the connection after such a frame must not resynchronise
+    /// inside its body.
+    trojan_armed: bool,
     /// Markers of requests the server has decided never to answer.
     held: u64,
     /// Exhaustion mode: (conn, stream, marker) of requests awaiting release.
@@ -40,6 +46,32 @@ impl Script for C02Script {
             return Reply::Default;
         }
         let m = rq.marker.unwrap_or(0);
+        if self.trojan_armed && m & F_HOLDALL == 0 && w.conns[rq.conn].cql.outstanding.len() >= 2 && tape::chance("c02:trojan_now", 1, 6) {
+            self.trojan_armed = false;
+            let inner = crate::wire::encode_response(
+                rq.stream,
+                crate::wire::OP_RESULT,
+                &crate::wire::body_rows(
+                    &[crate::wire::col("ks1", "t1", "v", crate::wire::CType::BigInt)],
+                    &[vec![crate::wire::Cell::BigInt(424_242)]],
+                    &crate::wire::RowsOpts { no_metadata: false, paging_state: None, new_metadata_id: None },
+                ),
+                &crate::wire::Envelope::default(),
+                None,
+            );
+            let mut unused: i16 = 30000;
+            while w.conns[rq.conn].cql.outstanding.contains(&unused) {
+                unused -= 1;
+            }
+            let mut f = vec![0x84u8, 0];
+            f.extend_from_slice(&unused.to_be_bytes());
+            f.push(0x7f);
+            f.extend_from_slice(&(inner.len() as u32).to_be_bytes());
+            f.extend_from_slice(&inner);
+            w.fault(Fault::Garbage);
+            w.probe("unknown_opcode_frame_with_embedded_response");
+            w.srv_send_now(rq.conn, f, None);
+        }
         if m & F_HOLDALL != 0 {
             self.parked.push((rq.conn, rq.stream, m));
             return Reply::NoReply;
@@ -143,6 +175,7 @@ async fn main(plan: Plan, slow_permille: u64) -> Outcome {
             slow_permille,
             noreply_permille: 0,
             big_permille: [0, 0, 50, 300][tape::choose("c02:big_rate", 4) as usize],
+            trojan_armed: tape::chance("c02:trojan", 1, 8),
             held: 0,
             parked: Vec::new(),
         }));
